@@ -77,6 +77,10 @@ def run_kani_group(pid, kcfg, tier, seed, clock, gi=0):
         want = os.environ["VERIF_HARNESSES"].split(",")
         sel = [(u, h) for u in units for h in u.harnesses if h["name"] in want]
     canaries = [(u, c) for u in units for c in u.canaries]
+    # `tier=native`: literal instances executed natively (bounded stand-in), both tiers
+    native_sel = [(u, h) for u in units for h in u.harnesses if h.get("tier") == "native"]
+    if os.environ.get("VERIF_HARNESSES"):
+        native_sel = [(u, h) for u, h in native_sel if h["name"] in os.environ["VERIF_HARNESSES"].split(",")]
     timeout_s = int(os.environ.get("VERIF_HARNESS_TIMEOUT", kcfg.get("timeout_" + tier, 1200 if tier == "quick" else 3600)))
     jobs = int(os.environ.get("VERIF_JOBS", kcfg.get("jobs", 8)))
     log_dir = os.path.join(VERIF, "work", "logs", os.environ.get("VERIF_TAG", pid))
@@ -90,6 +94,7 @@ def run_kani_group(pid, kcfg, tier, seed, clock, gi=0):
     violations, known, undecided = [], [], []
     per_harness = []
     refuted = []
+    timed_out = []
     extra_prepare = None
     if kcfg.get("prepare"):
         import importlib
@@ -100,7 +105,11 @@ def run_kani_group(pid, kcfg, tier, seed, clock, gi=0):
         with K.Workspace(os.environ.get("VERIF_TAG", pid) + ("" if gi == 0 else "-g%d" % gi), units, package=kcfg.get("package", "typify-impl"), extra_prepare=extra_prepare) as ws:
             fq = [u.fq(h["name"]) for u, h in sel] + [u.fq(c) for u, c in canaries]
             log("[%s] kani: %d harnesses + %d canaries, tier=%s, timeout/harness=%ds, jobs=%d" % (pid, len(sel), len(canaries), tier, timeout_s, jobs))
-            rc, out, rdir, killed = K.run_kani(ws, fq, timeout_s, jobs, os.path.join(log_dir, "kani-g%d.log" % gi))
+            if fq:
+                rc, out, rdir, killed = K.run_kani(ws, fq, timeout_s, jobs, os.path.join(log_dir, "kani-g%d.log" % gi))
+            else:
+                # a group of `tier=native` harnesses only (without --harness cargo kani would run every harness)
+                rc, out, rdir, killed = 0, "", os.path.join(log_dir, "none"), []
             if re.search(r"^error: could not compile|^error: Failed to ", out, re.M):
                 undecided.append("build failed (harness does not compile against the current tree, or compiler crash); see work/logs/%s/" % pid)
             if "internal compiler error" in out or "Kani unexpectedly panicked" in out:
@@ -139,6 +148,7 @@ def run_kani_group(pid, kcfg, tier, seed, clock, gi=0):
                 if res["verdict"] is None:
                     rec["outcome"] = "timeout-or-crash"
                     undecided.append("%s: no verdict (timeout after %ds or solver crash)" % (name, timeout_s))
+                    timed_out.append((u, name))
                     continue
                 if not cl["tagged"]:
                     if u.property and u.property != pid and cl["foreign"]:
@@ -181,6 +191,90 @@ def run_kani_group(pid, kcfg, tier, seed, clock, gi=0):
                     rec["outcome"] = "refuted-known-finding"
                     continue
                 refuted.append((res["time"] or 0, u, name, unknown, res))
+
+            # ---- tier=native: bounded native execution of literal instances ----
+            if native_sel:
+                log("[%s] native (bounded): %d literal-instance harnesses executed against the real code" % (pid, len(native_sel)))
+                try:
+                    ncan = [(u, c) for u in units for c in u.native_canaries if any(u2 is u for u2, _ in native_sel)]
+                    nres = K.native_batch(ws, [(u, h["name"]) for u, h in native_sel] + ncan, os.path.join(log_dir, "native"))
+                    for u, c in ncan:
+                        st = nres.get(c, {}).get("status")
+                        per_harness.append({"harness": c, "unit": u.name, "bounded": None, "canary": True, "engine": "native execution (no solver)",
+                                            "outcome": "canary-refuted-as-required" if st == "failed" else "canary-not-refuted"})
+                        if st != "failed":
+                            undecided.append("%s: native canary did not fail (status %s) -- the native pipeline cannot fail" % (c, st))
+                except Exception as e:  # noqa
+                    nres = {}
+                    undecided.append("native batch crashed: %r" % (e,))
+                for u, h in native_sel:
+                    name = h["name"]
+                    r_ = nres.get(name, {"status": "no-result", "tags_hit": [], "output": ""})
+                    bound = "native-execution-of-one-literal-instance" + ("," + h["bounded"] if h.get("bounded") else "")
+                    rec = {"harness": name, "unit": u.name, "bounded": bound, "canary": False, "engine": "native execution (no solver)",
+                           "checks": 1, "success": 1 if r_["status"] == "ok" else 0, "unreachable": 0}
+                    per_harness.append(rec)
+                    if r_["status"] == "ok":
+                        rec["outcome"] = "discharged"
+                        continue
+                    tags = sorted(set(t for t in r_["tags_hit"] if t.startswith(pid + "/")))
+                    if r_["status"] == "failed" and tags:
+                        rec["outcome"] = "refuted"
+                        unknown = []
+                        for t in tags:
+                            kf = [f for f in findings if f.get("harness") == name and f.get("tag") == t.split("/", 1)[1]]
+                            if kf:
+                                known.append((name, t.split("/", 1)[1], kf[0]["text"]))
+                            else:
+                                unknown.append({"tag": t.split("/", 1)[1]})
+                        if not unknown:
+                            rec["outcome"] = "refuted-known-finding"
+                            continue
+                        key = hashlib.sha256((name + "native-tier").encode()).hexdigest()[:10]
+                        rpath = os.path.join(VERIF, "replay", "%s-%s-%s.json" % (pid, name, key))
+                        os.makedirs(os.path.dirname(rpath), exist_ok=True)
+                        json.dump({
+                            "property": pid, "engine": "kani", "unit": u.name, "harness": name, "fq_harness": u.fq(name),
+                            "failed_obligations": [{"tag": t} for t in tags],
+                            "verifier_output_tail": "tier=native: the harness draws no symbolic value; executed natively against the real code:\n" + r_["output"],
+                            "playback": {"reproduced": True, "runs": [{"test": "kani_concrete_playback_%s_native0" % name,
+                                         "test_src": "#[test]\nfn kani_concrete_playback_%s_native0() {\n    let concrete_vals: Vec<Vec<u8>> = vec![];\n    kani::concrete_playback_run(concrete_vals, %s);\n}\n" % (name, name),
+                                         "native_tail": r_["output"], "tags_hit": tags, "failed_natively": True}]},
+                            "how_to_replay": "bin/check --replay %s" % os.path.relpath(rpath, VERIF),
+                        }, open(rpath, "w"), indent=1)
+                        violations.append((name, unknown, rpath, ""))
+                    else:
+                        rec["outcome"] = "native-" + r_["status"]
+                        undecided.append("%s: native execution gave no usable result (%s): %s" % (name, r_["status"], r_["output"][-300:].replace("\n", " | ")))
+
+            # a harness CBMC did not finish (undecided) is, when it draws no symbolic value, a plain
+            # test: run it natively against the real code. A tagged assertion failing there is a
+            # real violation with its input (the harness's literals); anything else leaves the
+            # harness undecided. Nothing times out on the unchanged tree, so this only ever runs
+            # on changed code.
+            for u, name in timed_out[:int(os.environ.get("VERIF_MAX_REPLAYS", "2"))]:
+                hlog = os.path.join(log_dir, name)
+                try:
+                    pb = K.native_concrete(ws, u, u.fq(name), hlog)
+                except Exception as e:  # noqa
+                    pb = {"reproduced": None, "why": "native run crashed: %r" % (e,)}
+                if pb.get("reproduced"):
+                    tags = sorted(set(t for r_ in pb["runs"] for t in r_["tags_hit"] if t.startswith(pid + "/")))
+                    if not tags:
+                        continue
+                    unknown = [{"tag": t.split("/", 1)[1] + "(native)"} for t in tags]
+                    key = hashlib.sha256((name + "native").encode()).hexdigest()[:10]
+                    rpath = os.path.join(VERIF, "replay", "%s-%s-%s.json" % (pid, name, key))
+                    os.makedirs(os.path.dirname(rpath), exist_ok=True)
+                    json.dump({
+                        "property": pid, "engine": "kani", "unit": u.name, "harness": name, "fq_harness": u.fq(name),
+                        "failed_obligations": [{"tag": t} for t in tags],
+                        "verifier_output_tail": "CBMC gave no verdict within %ds; the harness draws no symbolic value and was executed natively" % timeout_s,
+                        "playback": pb,
+                        "how_to_replay": "bin/check --replay %s" % os.path.relpath(rpath, VERIF),
+                    }, open(rpath, "w"), indent=1)
+                    log("[%s] %s: no CBMC verdict, but the harness (no symbolic input) fails natively on %s" % (pid, name, ",".join(tags)))
+                    violations.append((name, unknown, rpath, ""))
 
             # native replay of the verifier's counterexamples, cheapest harness first; at most
             # MAX_REPLAYS harnesses are replayed, the others are recorded in the first replay file
